@@ -81,7 +81,7 @@ pub fn decode_book_case(data: &[u8]) -> arbitrary::Result<BookCase> {
         };
         ops.push(op);
     }
-    Ok(BookCase { tick, levels, trading, t0, tie, ops, drain: true })
+    Ok(BookCase { tick, levels, trading, t0, tie, ops, drain: true, quiet: 0 })
 }
 
 fn prop_env() -> &'static str {
